@@ -7,6 +7,7 @@ import (
 	"regexp"
 	"sort"
 	"strconv"
+	"strings"
 
 	"veriftools/internal/vals"
 )
@@ -178,6 +179,11 @@ func streamEq(o *Out, r *rand.Rand, n int, thorough bool) {
 			// a string equals a number exactly when it is a decimal numeral denoting that number
 			if bi, ok := b.(int64); ok {
 				want := false
+				// Go's numeral syntax admits one underscore between digits (1_0 denotes 10)
+				av := strings.ReplaceAll(av, "_", "")
+				if !decIntRe.MatchString(a.(string)) && !decFloatRe.MatchString(a.(string)) {
+					av = "not a numeral"
+				}
 				if decIntRe.MatchString(av) {
 					if n, err := strconv.ParseInt(av, 10, 64); err == nil {
 						want = n == bi
@@ -270,8 +276,9 @@ func streamEq(o *Out, r *rand.Rand, n int, thorough bool) {
 	}
 }
 
-var decIntRe = regexp.MustCompile(`^[+-]?[0-9]+$`)
-var decFloatRe = regexp.MustCompile(`^[+-]?([0-9]+\.?[0-9]*|\.[0-9]+)([eE][+-]?[0-9]+)?$`)
+// decimal numerals in Go's syntax: digits, optionally separated by single underscores
+var decIntRe = regexp.MustCompile(`^[+-]?[0-9]+(_[0-9]+)*$`)
+var decFloatRe = regexp.MustCompile(`^[+-]?([0-9]+(_[0-9]+)*\.?([0-9]+(_[0-9]+)*)?|\.[0-9]+(_[0-9]+)*)([eE][+-]?[0-9]+(_[0-9]+)*)?$`)
 
 func unwrapEnc(e string) string {
 	if len(e) > 3 && e[:3] == "(w " {
